@@ -289,6 +289,30 @@ impl Band {
         })
     }
 
+    /// Check that no index hunks are missing: they must be numbered consecutively from
+    /// zero, and if the band is closed there must be as many as its tail says.
+    pub async fn check_index_hunks(&self) -> Result<()> {
+        let hunks = self.index().hunks_available().await?;
+        if let Some(missing) = (0u32..).zip(hunks.iter()).find(|(i, h)| i != *h).map(|(i, _)| i) {
+            return Err(Error::InvalidMetadata {
+                details: format!("Index hunk {missing} is missing from band {}", self.band_id),
+            });
+        }
+        let tail: Option<Tail> = read_json(&self.transport, BAND_TAIL_FILENAME).await?;
+        if let Some(expected) = tail.and_then(|tail| tail.index_hunk_count) {
+            if hunks.len() as u64 != expected {
+                return Err(Error::InvalidMetadata {
+                    details: format!(
+                        "Band {} has {} index hunks but its tail says there should be {expected}",
+                        self.band_id,
+                        hunks.len()
+                    ),
+                });
+            }
+        }
+        Ok(())
+    }
+
     pub async fn validate(&self, monitor: Arc<dyn Monitor>) -> Result<()> {
         let entries = self.transport.list_dir("").await?;
         if !entries.iter().any(|entry| entry.name == BAND_HEAD_FILENAME) {
